@@ -271,6 +271,14 @@ def make_case(rc):
         fail = pipeline_agrees(f)
     if fail is None and sig[0] == 'parsed':
         fail = operands_emitted(f)
+    if fail is None and rc.get('twin'):
+        # an argument written as an expression (5+1, A1*2) must count as a whole: the formula has the value of its twin with the arguments worked out by hand
+        def val(g):
+            return I.eval_formula(g, {'A1': 1, 'B2': 2, 'C3': dt_.datetime(2024, 1, 31)}, addr='H9')
+        import datetime as dt_
+        a_, b_ = val(f), val(rc['twin'])
+        if a_ != b_:
+            fail = 'the formula evaluates to %r, its twin %s with the arguments worked out to %r' % (a_, rc['twin'], b_)
     if fail is None and rc.get('parts'):
         # a formula that contains an ill-formed part is ill-formed: when one of its parts, written as a formula of its own, is rejected by the
         # pipeline, so must be the whole
@@ -321,6 +329,12 @@ def run(R, tier):
                                                              '=SUM()', '=SUM(A1;;A2)', '=MAX', '=TODAY(', '=1+SUM(A1:A2', '=FOO(1)', '=A1+B1\n+A2', '=SUM(A1,B1)\n*B2',
                                                              '="ab"&"cd"', '="ab" "cd"', '="ab"="cd"', '="ab";"cd"', '="ab"&A1&"cd"']]
     recipes += [x['witness'] for x in C.known_findings()['findings'] if x['property'] == 'C05']
+    for f_, t_ in [('=DATE(2024,5+1,17)', '=DATE(2024,6,17)'), ('=DATE(2024,2*A1,17)', '=DATE(2024,2,17)'), ('=DATE(2023+A1,5,17+B2)', '=DATE(2024,5,19)'),
+                   ('=ROUND(2.345+1,1+1)', '=ROUND(3.345,2)'), ('=LEFT("abcdef",1+2)', '=LEFT("abcdef",3)'), ('=MID("abcdef",1+1,2*1)', '=MID("abcdef",2,2)'),
+                   ('=EDATE(C3,A1*2)', '=EDATE(C3,2)'), ('=EOMONTH(C3,B2-1)', '=EOMONTH(C3,1)'), ('=EDATE(C3,A1+B2)', '=EDATE(C3,3)'), ('=YEAR(EDATE(C3,B2*6))', '=YEAR(EDATE(C3,12))'),
+                   ('=SUM(A1+1,B2*2)', '=SUM(2,4)'), ('=MAX(A1*5,B2+1)', '=MAX(5,3)'), ('=IF(A1+1>1,B2*3,0)', '=IF(TRUE,6,0)'), ('=ROUNDUP(B2/3,A1+1)', '=ROUNDUP(0.666666666666667,2)'),
+                   ('=RIGHT("abcdef",B2+1)', '=RIGHT("abcdef",3)'), ('=ADDRESS(A1+1,B2*2)', '=ADDRESS(2,4)'), ('=VLOOKUP(A1+1,A1:B2,1,FALSE)', '=VLOOKUP(2,A1:B2,1,FALSE)')]:
+        recipes.append({'formula': f_, 'twin': t_, 'mutated': True})
     for cond in ['TRUE', 'FALSE', 'TRUE()', 'FALSE()', 'A1>0', '1=1']:
         for a, b in [('1', '2%3'), ('2%(3)', '1'), ('1', 'SUM(A1:B)'), ('A:B2', '7'), ('MAX(1,2)', 'MIN(4%5,6)'), ('1', '2'), ('A1', 'B2*2')]:
             recipes.append({'formula': '=IF(%s,%s,%s)' % (cond, a, b), 'parts': ['=' + a, '=' + b], 'mutated': True})
